@@ -130,6 +130,7 @@ var authValues = []authValue{
 	{"bearer-jwt-expired", "bearer", "jwt-expired"},
 	{"bearer-jwt-wrong-audience", "bearer", "jwt-wrong-audience"},
 	{"bearer-jwt-unknown-kid", "bearer", "jwt-unknown-kid"},
+	{"bearer-jwt-hs256-forged", "bearer", "jwt-hs256-forged"},
 	{"bearer-jws-alg-none", "bearer", "jws-alg-none"},
 	{"bearer-three-garbage-segments", "bearer", "garbage-segments"},
 	{"bearer-opaque-active", "bearer", "opaque-active"},
@@ -214,6 +215,18 @@ func newWorld() *world {
 		"jwt-expired":        signJWT(keyA, "k1", claims(map[string]any{"exp": now - 3600, "iat": now - 7200, "nbf": now - 7200})),
 		"jwt-wrong-audience": signJWT(keyA, "k1", claims(map[string]any{"aud": []string{"someone-else"}})),
 		"jwt-unknown-kid":    signJWT(keyA, "k9", claims(nil)),
+	}
+
+	// a well-formed JWS with a symmetric algorithm, MAC'ed with the published key set document ("key confusion"): in JWT
+	// format, present, and invalid
+	hs, err := jose.NewSigner(jose.SigningKey{Algorithm: jose.HS256, Key: jose.JSONWebKey{Key: raw, KeyID: "k1"}},
+		(&jose.SignerOptions{}).WithType("JWT"))
+	if err != nil {
+		panic(err)
+	}
+
+	if jwts["jwt-hs256-forged"], err = jwt.Signed(hs).Claims(claims(nil)).Serialize(); err != nil {
+		panic(err)
 	}
 
 	payload, _ := json.Marshal(claims(nil))
